@@ -8,6 +8,7 @@ import (
 	"os"
 	"path/filepath"
 	"regexp"
+	"sort"
 	"strconv"
 	"strings"
 
@@ -70,13 +71,31 @@ func parserRequestURL(c *Client, req *Request) error {
 		}
 	}
 
-	// Set path parameters from the request and client.
-	req.path.VisitAll(func(key, val string) {
-		uri = strings.ReplaceAll(uri, ":"+key, val)
+	// Set path parameters from the request and client; the request's value wins. Longer
+	// names first, so that ":id" never eats the beginning of ":idx" (the parameters live
+	// in maps, whose iteration order would otherwise decide the outcome).
+	names := make([]string, 0, len(*req.path)+len(*c.path))
+	for key := range *req.path {
+		names = append(names, key)
+	}
+	for key := range *c.path {
+		if _, ok := (*req.path)[key]; !ok {
+			names = append(names, key)
+		}
+	}
+	sort.Slice(names, func(i, j int) bool {
+		if len(names[i]) != len(names[j]) {
+			return len(names[i]) > len(names[j])
+		}
+		return names[i] < names[j]
 	})
-	c.path.VisitAll(func(key, val string) {
+	for _, key := range names {
+		val, ok := (*req.path)[key]
+		if !ok {
+			val = (*c.path)[key]
+		}
 		uri = strings.ReplaceAll(uri, ":"+key, val)
-	})
+	}
 
 	// Set the URI in the raw request.
 	req.RawRequest.SetRequestURI(uri)
